@@ -378,11 +378,12 @@ class RankRun:
                 if p.grad is not None:
                     p.add_(p.grad, alpha=-self.cfg.sgd_lr)
 
-    def apply(self, op: list[Any]) -> None:
+    def apply(self, op: list[Any], set_ctx: bool = True) -> None:
         kind = op[0]
         rec: dict[str, Any] = {'op': op}
         self.opno = getattr(self, 'opno', -1) + 1
-        simdist.set_ctx({'op': kind, 'n': self.opno})
+        if set_ctx:
+            simdist.set_ctx({'op': kind, 'n': self.opno})
         try:
             if kind == 'train':
                 self.do_train(op[1] if len(op) > 1 else 1)
